@@ -1,6 +1,57 @@
-(* C13Proofs.v — lemmas about the sync model used by props/C13.v *)
-From SV Require Import Base Json Canon Sync SyncObs CorrC13.
+(* C13Proofs.v — lemmas for props/C13.v; the proofs about the model live in SyncProofs / SyncDocProofs /
+   SyncTopProofs (shared with C14 and C15). *)
+From SV Require Export Base Json Canon Sync SyncObs CorrC13 CorrC14 SyncProofs SyncDocProofs SyncTopProofs.
 
 Lemma run_sync_src_untouched : forall frepr cf o en src dst,
   ob_src (model_call frepr cf o en src dst) = src.
 Proof. intros. unfold model_call, model_call_gen. destruct (run_sync_gen frepr cf false o en src dst). reflexivity. Qed.
+
+Lemma model_case_src_untouched : forall frepr all cf i,
+  ob_src (c_obs (model_case_gen frepr all cf i)) = i_src i.
+Proof.
+  intros. unfold model_case_gen, model_call_gen. cbn [c_obs].
+  destruct (run_sync_gen frepr cf all (i_opts i) (i_entry i) (i_src i) (i_dst i)). reflexivity.
+Qed.
+
+(* a cloned job is byte-identical to the source job, path by path *)
+Lemma clone_paths : forall frepr cf o id sd ws p,
+  o_dry_run o = false -> alookup id ws = None ->
+  fix_excl cf = false \/ forallb (fun k => negb (clone_excl o k)) p = true ->
+  lookup_path (id :: p) (Dir (fst (clone_or_sync frepr cf o (id, Dir sd) ws)))
+  = match lookup_path p (Dir sd) with
+    | Some y => Some (touch (if fix_excl cf then prune (clone_excl o) y else y))
+    | None => None
+    end.
+Proof.
+  intros frepr cf o id sd ws p Hdry Hn Hp. rewrite (clone_exact frepr cf o id sd ws Hdry Hn). cbn [fst].
+  rewrite lookup_snoc_new by assumption. rewrite lookup_path_touch.
+  destruct (fix_excl cf).
+  - destruct Hp as [Hp|Hp]; [discriminate|]. rewrite lookup_path_prune_keep by assumption.
+    destruct (lookup_path p (Dir sd)); reflexivity.
+  - destruct (lookup_path p (Dir sd)); reflexivity.
+Qed.
+
+From SV Require Export SyncIdemProofs SyncFlatProofs.
+
+Lemma ws_superset_fixed : forall frepr cf, fix_ignore cf = true ->
+  forall p fuel o deep sdir ddir subdir d' c m,
+  wf_node (Dir sdir) = true -> o_dry_run o = false ->
+  sync_ws frepr cf fuel o deep sdir ddir subdir = (d', None) ->
+  lookup_path p (Dir sdir) = Some (File c m) -> absent_in p ddir = true ->
+  (o_recursive o = true \/ length p = 1%nat) -> clear_path cf o p = true ->
+  lookup_path p (Dir d') = Some (File c NOW).
+Proof.
+  intros frepr cf Hfi p fuel o deep sdir ddir subdir d' c m Hwf Hdry Hrun Hs Ha Hr Hc.
+  apply (ws_superset frepr cf p fuel o deep sdir ddir subdir d' c m); auto.
+  apply forallb_forall. intros k _. unfold ignored. rewrite Hfi. reflexivity.
+Qed.
+
+Lemma model_holds_C13 : forall frepr cf i, wf_project (i_src i) = true ->
+  let c := model_case frepr cf i in
+  ob_rest_ok (c_obs c) = true /\ proj_eqb frepr (i_src i) (ob_src (c_obs c)) = true.
+Proof.
+  intros frepr cf i Hwf. cbv zeta. unfold model_case. rewrite model_case_src_untouched.
+  split; [|apply proj_eqb_refl; assumption].
+  unfold model_case_gen, model_call_gen. cbn [c_obs].
+  destruct (run_sync_gen frepr cf false (i_opts i) (i_entry i) (i_src i) (i_dst i)). reflexivity.
+Qed.
